@@ -20,6 +20,9 @@ use std::time::Duration;
 /// Worker op "session": req.lines = [{text, budget?}]; one observation per line
 pub fn run_session(req: &Value) -> Value {
     verif::reset();
+    let heap = req.get("heap").and_then(|h| h.as_bool()).unwrap_or(false);
+    verif::record_heap(heap);
+    let live_before = if heap { verif::shadow_live_ids() } else { vec![] };
     let mut compiler = Compiler::new();
     let mut vm = VM::new();
     let mut obs: Vec<Value> = Vec::new();
@@ -73,6 +76,17 @@ pub fn run_session(req: &Value) -> Value {
         }
     }
     verif::set_budget(None);
+    if heap {
+        // the pair goes away like the prompt's does at the end of the input: the ledger sees all of it
+        drop(vm);
+        drop(compiler);
+        let evs = verif::take_events();
+        verif::record_heap(false);
+        let _ = verif::take_fault();
+        let (_, h) = crate::run::events_json(&evs);
+        let leaked: Vec<u64> = verif::shadow_live_ids().into_iter().filter(|i| !live_before.contains(i)).collect();
+        return json!({"obs":obs,"heap":h,"live_after":leaked});
+    }
     // the objects of the session are deliberately leaked (the collector never frees them anyway)
     std::mem::forget(vm);
     std::mem::forget(compiler);
@@ -89,6 +103,10 @@ struct Line {
     fail: &'static str,
     /// error kind of the planned run-time failure
     kind: &'static str,
+}
+
+pub fn gen_session_texts(seed: u64, nlines: usize) -> Vec<String> {
+    gen_session(seed, nlines).into_iter().map(|l| l.text).collect()
 }
 
 fn gen_session(seed: u64, nlines: usize) -> Vec<Line> {
@@ -125,7 +143,16 @@ fn gen_session(seed: u64, nlines: usize) -> Vec<Line> {
             // compile failure at a statement position: an undeclared name
             let p = rng.gen_range(0..=stmts.len());
             let mut s2 = stmts.clone();
-            s2.insert(p, Stmt::Expr(crate::ast::infix("+", crate::ast::id("nergens_gedeclareerd"), Expr::Int(1))));
+            let bad = crate::ast::infix("+", crate::ast::id("nergens_gedeclareerd"), Expr::Int(1));
+            // the failing statement is an expression, or a (re-)declaration of a variable that exists
+            let existing: Vec<String> = snapshot[0].scopes[0].vars.iter()
+                .filter(|v| v.assignable && !matches!(v.ty, Ty::Fn(..))).map(|v| v.name.clone()).collect();
+            let stmt = match rng.gen_range(0..3) {
+                0 => Stmt::Expr(bad),
+                1 if !existing.is_empty() => Stmt::Let(existing[rng.gen_range(0..existing.len())].clone(), bad),
+                _ => Stmt::Let("nieuw_in_mislukte_regel".into(), bad),
+            };
+            s2.insert(p, stmt);
             g.ctxs = snapshot;
             lines.push(Line { text: to_text(&s2, true), committed: vec![], full: None, fail: "compile", kind: "" });
         } else if r < 0.36 {
